@@ -68,6 +68,12 @@ class NoneObject:
     def __gt__(a, b):
         return False
 
+    def __le__(a, b):
+        return False
+
+    def __ge__(a, b):
+        return False
+
     def __lte__(a, b):
         return False
 
@@ -503,6 +509,12 @@ class TypeMatcherInstance:
 
     def __gt__(self, other):
         return self._op(operator.gt, other)
+
+    def __le__(self, other):
+        return self._op(operator.le, other)
+
+    def __ge__(self, other):
+        return self._op(operator.ge, other)
 
     def __lte__(self, other):
         return self._op(operator.le, other)
